@@ -21,7 +21,7 @@ RULE = ('cases are histories of 4-12 operations (encrypt with generated or suppl
         'os.urandom failure); a run is non-trivial when at least two operations of the same class were checked against the '
         'draw log and against each other; distinct = distinct operation-class sequences with their recipient kinds')
 TIERS = {'quick': {'runs': 4000, 'budget_s': 80}, 'thorough': {'runs': 200000, 'budget_s': 1500}}
-PROBES = ('cipher_chosen_from_preferences', 'same_message_object_again', 'repeat_identical_encrypt', 'reprotect_same_algos', 'reprotect_other_algos', 'urandom_failure_injected', 'ecdh_ephemeral_checked',
+PROBES = ('earlier_output_written_again_after_later_encryption', 'cipher_chosen_from_preferences', 'same_message_object_again', 'repeat_identical_encrypt', 'reprotect_same_algos', 'reprotect_other_algos', 'urandom_failure_injected', 'ecdh_ephemeral_checked',
           'skesk_salt_checked', 'protect_components>=2', 'supplied_session_key', 'multi_recipient')
 
 
@@ -198,6 +198,16 @@ def _encrypt(pgpy, R, step, recips, ctx, rnd, seen):
     if raised is not None:
         ctx.event(step['id'], 'encrypt', 'refused', type(raised).__name__)
         return False
+    # a batch is often written out after all of it was encrypted: an earlier ciphertext object still carries its own salts, IVs and
+    # session-key packets after later encryptions
+    prev = getattr(R, 'last_enc', None)
+    if prev is not None:
+        ctx.checked()
+        ctx.probe('earlier_output_written_again_after_later_encryption')
+        if bytes(prev[0]) != prev[1]:
+            ctx.viol('C13:earlier-output-changed-by-later-encryption', 'a ciphertext object made earlier exports other octets after a later '
+                     'encryption (its random fields are not its own)')
+    R.last_enc = (enc, out)
     draws = rnd.draws_since(mark)
     ur = [d for d in draws if d[1] == 'urandom']
     kg = [d for d in draws if d[1] != 'urandom']
